@@ -3,7 +3,8 @@ from . import agentsim as S
 
 PROP  = 'C01'
 KNOBS = {'max_tasks': 14, 'cancel_prob': 0.3, 'preplaced_share': 0.12,
-         'tag_share': 0.15, 'fail_share': 0.1, 'partition_share': 0.05}
+         'tag_share': 0.15, 'fail_share': 0.1, 'partition_share': 0.05,
+         'deprecated_share': 0.1}
 gen, run = S.make_check(PROP, ['sched', 'sched', 'full', 'nodelist', 'jsrun'], KNOBS,
                         lambda sc, res: res.get('max_held', 0) >= 2)
 shrink = S.shrink
